@@ -88,8 +88,10 @@ def _two_polys(extra=()):
     def gen(g, stream):
         a = _polygon(g, stream)
         r = g.rng
-        if r.random() < 0.4:
-            # a scaled / shifted copy: inside, outside or overlapping
+        area2 = sum(a[i - 1].x * a[i].y - a[i].x * a[i - 1].y for i in range(len(a)))
+        if r.random() < 0.4 and abs(area2) > 1e-6:
+            # a scaled / shifted copy: inside, outside or overlapping (not of a degenerate
+            # loop: the rounded copy of a zero-area loop lies on its line only up to rounding)
             k = r.choice([0.25, 0.5, 2.0])
             n = float(len(a))
             cx, cy = sum(v.x for v in a) / n, sum(v.y for v in a) / n
